@@ -97,9 +97,10 @@ def check_aba(spec):
             before = find_pattern_in_structure(S, A, atol=atol)
             if len(before) < len(case['planted']):
                 return "only %d of %d planted occurrences are found at atol=%r" % (len(before), len(case['planted']), atol)
-            s1 = replace_pattern_in_structure(S, A, B, atol=atol)
+            hk = dict(zip(('axisp1_idx', 'axisp2_idx', 'opoint_idx'), spec['hints'])) if spec.get('hints') else {}
+            s1 = replace_pattern_in_structure(S, A, B, atol=atol, **hk)
             left = find_pattern_in_structure(s1, A, atol=atol)
-            s2 = replace_pattern_in_structure(s1, B, A, atol=atol)
+            s2 = replace_pattern_in_structure(s1, B, A, atol=atol, **hk)
         except Exception as e:
             return "raised %r" % (e,)
     if len(left) != 0:
@@ -134,6 +135,16 @@ def run(rec, tier, seed):
             rec.case(repr(sorted(spec.items())), group='self', sample=spec if len(rec.samples) < 2 else None)
             if msg:
                 rec.fail('selfrepl', 'self-replacement', "%s on %r" % (msg, spec), spec, 'C08/self-replacement')
+    # the same substitutions with caller-supplied axis / orientation atoms (each role given to another atom than the default one)
+    for ci, cell in enumerate(geo.CELLS):
+        for hi, hints in enumerate(((1, 0, 2), (2, 0, 1), (1, 2, 0))):
+            if tier == 'quick' and (ci + hi) % 3:
+                continue
+            spec = dict(cell=cell, pair='swap-element', copies=3, seed=seed * 10 + 60 + ci, aba=True, hints=list(hints))
+            msg = check_aba(spec)
+            rec.case(repr(sorted(spec.items())), group='A-B-A')
+            if msg:
+                rec.fail('selfrepl', 'reversible', "%s on %r" % (msg, spec), spec, 'C08/A-B-A')
     for ci, cell in enumerate(geo.CELLS):
         spec = dict(cell=cell, bridged=True, seed=seed * 10 + 70 + ci, aba=True)
         msg = check_aba(spec)
